@@ -705,8 +705,9 @@ func FunctionMap() map[string]physical.FunctionDetails {
 					OutputType:    octosql.String,
 					Strict:        true,
 					Function: func(values []octosql.Value) (octosql.Value, error) {
-						out := make([]rune, len(values[0].Str))
-						for i, ch := range values[0].Str {
+						runes := []rune(values[0].Str)
+						out := make([]rune, len(runes))
+						for i, ch := range runes {
 							out[len(out)-i-1] = ch
 						}
 						return octosql.NewString(string(out)), nil
